@@ -283,7 +283,7 @@ def run(prog, chk):
     r3 = chk.rule("R3-window-rebased", "whenever get_more_chars moves the buffered data it re-bases text_start, tvalue_start, "
                   "next_char and buffer_limit", primary=False, floor=2)
     g = prog.fn(REFILL_ROOT)
-    movers = [(b.id, i, n) for (b, i, r, n) in g.calls() if n.get("callee") in ("memmove", "memcpy", "u_memmove")
+    movers = [(b.id, i, n) for (b, i, r, n) in g.calls() if n.get("callee") in ("memmove", "memcpy", "u_memmove", "u_memcpy")
               and any(x.get("k") == "member" and x.get("name") in ("buffer", "text_start") for a in n.get("args", [])[:2] for x in walk(a))]
     movers = [m for m in movers if any(x.get("k") == "member" and x.get("name") == "text_start" for x in walk(m[2]["args"][1]))]
     if not movers:
